@@ -3020,7 +3020,15 @@ impl<const RICE_MAX: u32, I: SignedInteger> FromBitStreamUsing for ResidualParti
                     .map(|_| {
                         let msb = r.read_unary::<1>()?;
                         let lsb = r.read_counted::<RICE_MAX, u32>(rice)?;
+                        // a residual must fit a 32-bit signed integer,
+                        // its most negative value excluded
+                        if msb > (u32::MAX >> u32::from(rice)) {
+                            return Err(Error::ResidualOverflow);
+                        }
                         let unsigned = (msb << u32::from(rice)) | lsb;
+                        if unsigned == u32::MAX {
+                            return Err(Error::ResidualOverflow);
+                        }
                         Ok::<_, Error>(if (unsigned & 1) == 1 {
                             -(I::from_u32(unsigned >> 1)) - I::ONE
                         } else {
